@@ -186,9 +186,19 @@ def run(tier, seed, replay=None):
         rej = ['select * from int1.t1 as ta join proj.tp as m where ta.t > 1' + r for r in REJECT] + \
               ['select * from int1.t1 as ta join proj.tp as m where ' + w for w in REJECT_WHERE] + \
               ['select ta.g, count(*) from int1.t1 as ta join proj.tp as m where ta.t > 1 group by ta.g having count(*) > 1']
-        for sql in rej:
+        # filters on columns that are neither the order column nor a partition column, under every number of partition columns, with
+        # names that resemble the allowed ones (substrings, extensions, other case is the same column)
+        rej = [(q, meta) for q in rej]
+        for ob in ('t', 'pickup_hour', 'ts1'):
+            for groups in ([], ['g'], ['g', 'grp']):
+                m2 = [{'name': 'tp', 'integration_name': 'proj', 'timeseries': True, 'order_by_column': ob, 'group_by_columns': list(groups), 'window': 2}]
+                others = {'hour', 'pickup', 'p', 'our', ob + '2', 'x' + ob, ob[:-1], ob[1:], 'gr', 'grp2', 'r', 'z'} - {ob, ''} - set(groups)
+                for col in sorted(others):
+                    for cond in (f'ta.{col} = 3', f'ta.{col} in (1, 2)'):
+                        rej.append((f'select * from int1.t1 as ta join proj.tp as m where ta.{ob} > 1 and {cond}', m2))
+        for sql, meta_ in rej:
             try:
-                plan_query(parse_sql(sql, 'mindsdb'), integrations=['int1', 'proj'], predictor_metadata=copy.deepcopy(meta))
+                plan_query(parse_sql(sql, 'mindsdb'), integrations=['int1', 'proj'], predictor_metadata=copy.deepcopy(meta_))
                 rej_bad.append((sql, 'planned without error'))
             except PlanningException:
                 pass
